@@ -92,7 +92,7 @@ func TestVerifByteStream(t *testing.T) {
 	f := vNewFix(t, vFixOpts{validateAC: true, depsCheck: true, maxBlob: 200000})
 	defer f.Close()
 	base := vBSFrames()
-	kinds := []string{"ok", "ok", "okNoFinish", "existing", "existingPartial", "offsetFirst", "nameChange", "tooMany", "tooFew", "badName", "emptyName", "noMessages", "zstdBad", "overLimit", "nameRepeat", "finishEarly"}
+	kinds := []string{"ok", "ok", "okNoFinish", "existing", "existingPartial", "offsetFirst", "nameChange", "nameChangeEmpty", "tooMany", "tooFew", "badName", "emptyName", "noMessages", "zstdBad", "overLimit", "nameRepeat", "finishEarly"}
 	if only := os.Getenv("VERIF_BS_ONLY"); only != "" {
 		kinds = strings.Split(only, ",")
 	}
@@ -152,6 +152,22 @@ func TestVerifByteStream(t *testing.T) {
 			}
 			msgs[len(msgs)-1].name = strings.Replace(name, "/u", "/v", 1)
 			msgs[len(msgs)-1].finish = true
+			expectOK, expectStored = false, false
+		case "nameChangeEmpty":
+			// a message without data and without finish_write that carries another resource name,
+			// somewhere after the first message; the rest of the stream is well formed
+			pos := 1 + rng.Intn(len(msgs))
+			if msgs[len(msgs)-1].finish && pos == len(msgs) {
+				pos = len(msgs) - 1
+				if pos == 0 {
+					// single message: split off the finish into a last, empty message
+					msgs[0].finish = false
+					msgs = append(msgs, vMsg{off: int64(len(wire)), finish: true})
+					pos = 1
+				}
+			}
+			renamed := vMsg{off: msgs[pos-1].off + int64(len(msgs[pos-1].data)), name: strings.Replace(name, "/u", "/w", 1)}
+			msgs = append(msgs[:pos], append([]vMsg{renamed}, msgs[pos:]...)...)
 			expectOK, expectStored = false, false
 		case "tooMany":
 			if z {
@@ -265,7 +281,7 @@ func TestVerifByteStream(t *testing.T) {
 				if q.Complete == miss || (q.Complete && q.CommittedSize != int64(size)) || (!q.Complete && q.CommittedSize != 0) {
 					rec.Violation("C16", "bs.qws", fmt.Sprintf("QueryWriteStatus complete=%v committed=%d but present=%v size=%d", q.Complete, q.CommittedSize, !miss, size), rp)
 				}
-			} else if kind != "nameChange" {
+			} else if kind != "nameChange" && kind != "nameChangeEmpty" {
 				rec.Violation("C16", "bs.qws-error", fmt.Sprintf("QueryWriteStatus failed for a valid name: %v", qerr), rp)
 			}
 		}
